@@ -172,10 +172,43 @@ impl Family for Repro {
                 runs.push(json!({"order": p, "roles": mask, "accepted": accepted, "files": per_file, "warnings": warnings, "errors": errors}));
             }
         }
+        // the first file listed twice (second time in another spelling), with the other files before, between and after the
+        // two mentions: the same program, so the same verdict, contents and warnings in every arrangement
+        let mut dup_runs: Vec<Value> = Vec::new();
+        if n >= 2 && self.counter % 2 == 0 {
+            let again = format!("./{}", names[0]);
+            let rest: Vec<String> = names[1..].to_vec();
+            let orders: Vec<Vec<String>> = vec![
+                [vec![names[0].clone(), again.clone()], rest.clone()].concat(),
+                [vec![names[0].clone()], rest.clone(), vec![again.clone()]].concat(),
+                [rest.clone(), vec![names[0].clone(), again.clone()]].concat(),
+            ];
+            for sources in orders {
+                let options = SliceOptions { sources: sources.clone(), ..Default::default() };
+                let state = slicec::compile_from_options(&options);
+                let accepted = !state.diagnostics.has_errors();
+                let mut per_file = serde_json::Map::new();
+                if accepted {
+                    for f in &state.files {
+                        per_file.insert(f.relative_path.clone(), json!(hash_str(&ast_project::file(f).to_string()).to_string()));
+                    }
+                }
+                let diags = state.into_diagnostics(&options);
+                let mut warnings: Vec<String> = diags.iter().filter(|d| d.level() == DiagnosticLevel::Warning).map(|d| format!("{}|{}", d.code(), d.message())).collect();
+                warnings.sort();
+                let mut errors: Vec<String> = diags.iter().filter(|d| d.level() == DiagnosticLevel::Error).map(|d| d.code().to_owned()).collect();
+                errors.sort();
+                errors.dedup();
+                dup_runs.push(json!({"order": sources, "roles": 0, "accepted": accepted, "files": per_file, "warnings": warnings, "errors": errors}));
+            }
+        }
         if let Some(p) = prev {
             let _ = std::env::set_current_dir(p);
         }
         emit_event("repro", &json!({"ev": "perm", "n": n, "runs": runs}));
+        if !dup_runs.is_empty() {
+            emit_event("repro", &json!({"ev": "perm", "n": n, "dup": true, "runs": dup_runs}));
+        }
         // repeated runs of the binary in fresh processes: byte-identical diagnostics and generator requests
         let reruns = std::env::var("VERIF_REPRO_RERUNS").ok().and_then(|v| v.parse::<usize>().ok()).unwrap_or(3);
         if self.counter % 4 == 1 {
